@@ -79,9 +79,7 @@ fn laws(a: &Value<'_>, b: &Value<'_>, c: &Value<'_>) {
             assert!(h(a) == h(b), "equal values hash differently");
         }
     }
-    kani::cover!(nan_free && a == b && ab == Ordering::Equal, "equal pair");
-    kani::cover!(ab == Ordering::Less, "ordered pair");
-    kani::cover!(has_nan(a) && !has_nan(b), "NaN vs number");
+    kani::cover!(ab != Ordering::Equal, "ordered pair");
 }
 
 /// numeric leaf restricted to three representative variants (small, wide integer, float) for the triple laws
@@ -105,6 +103,7 @@ macro_rules! same_variant_laws {
             let a = Value::$var(kani::any());
             let b = Value::$var(kani::any());
             let c = Value::$var(kani::any());
+            kani::cover!(a == b, "equal pair");
             laws(&a, &b, &c);
             core::mem::forget((a, b, c));
         }
@@ -147,6 +146,8 @@ fn c08_f64_triple_laws() {
     let a = Value::F64(kani::any());
     let b = Value::F64(kani::any());
     let c = Value::F64(kani::any());
+    kani::cover!(has_nan(&a) && !has_nan(&b), "NaN vs number");
+    kani::cover!(a == b, "equal pair");
     laws(&a, &b, &c);
     core::mem::forget((a, b, c));
 }
@@ -164,25 +165,39 @@ fn c08_leaf_laws_nan_witness() {
     core::mem::forget(a);
 }
 
-/// clone / to-owned / signature laws on leaves
+/// try_clone preserves equality and the reported signature (one harness per variant)
+macro_rules! clone_laws {
+    ($h:ident, $var:ident, $sig:expr) => {
+        #[kani::proof]
+        #[kani::unwind(10)]
+        #[kani::stub(alloc::fmt::format, no_format)]
+        fn $h() {
+            let a = Value::$var(kani::any());
+            kani::assume(!has_nan(&a));
+            let r = a.try_clone();
+            match &r {
+                Ok(b) => {
+                    kani::cover!(true, "cloned");
+                    assert!(a == *b, "try_clone changed the value");
+                    assert!(b.value_signature() == &$sig, "cloned value reports a different signature");
+                }
+                Err(_) => assert!(false, "try_clone of a leaf failed"),
+            }
+            assert!(a.value_signature() == &$sig, "value_signature is not the signature of the variant");
+            core::mem::forget(r);
+            core::mem::forget(a);
+        }
+    };
+}
+clone_laws!(c08_clone_y, U8, zvariant::Signature::U8);
+clone_laws!(c08_clone_x, I64, zvariant::Signature::I64);
+clone_laws!(c08_clone_d, F64, zvariant::Signature::F64);
+
+/// conversion back to the Rust type the value was built from
 #[kani::proof]
 #[kani::unwind(10)]
 #[kani::stub(alloc::fmt::format, no_format)]
-fn c08_leaf_clone_signature() {
-    let a = sym_leaf3();
-    match a.try_clone() {
-        Ok(b) => {
-            assert!(a == b, "try_clone changed the value");
-            assert!(a.value_signature() == b.value_signature(), "try_clone changed the signature");
-            kani::cover!(true, "cloned");
-            core::mem::forget(b);
-        }
-        Err(e) => {
-            core::mem::forget(e);
-            assert!(false, "try_clone of a leaf failed");
-        }
-    }
-    // conversion back to the Rust type it was built from
+fn c08_conversions() {
     let x: u32 = kani::any();
     let v = Value::from(x);
     let back = u32::try_from(&v);
@@ -198,5 +213,67 @@ fn c08_leaf_clone_signature() {
     let back3 = f64::try_from(&v3);
     assert!(matches!(back3, Ok(z) if z.to_bits() == d.to_bits()), "f64 -> Value -> f64 changed the value");
     core::mem::forget(back3);
-    core::mem::forget((a, v, v2, v3));
+    // a wrong target type is refused
+    let wrong = u8::try_from(&v);
+    assert!(wrong.is_err(), "u32 value converted into u8");
+    core::mem::forget(wrong);
+    kani::cover!(x == u32::MAX, "boundary value");
+    core::mem::forget((v, v2, v3));
+}
+
+// ---------------------------------------------------------------- strings and one level of nesting
+
+fn sym_str_value(which: u8) -> Value<'static> {
+    let b: [u8; 2] = kani::any();
+    kani::assume(b[0] != 0 && b[0] < 0x80 && b[1] != 0 && b[1] < 0x80);
+    let n: usize = kani::any();
+    kani::assume(n <= 2);
+    let b: &'static [u8; 2] = Box::leak(Box::new(b));
+    let s: &'static str = unsafe { core::str::from_utf8_unchecked(&b[..n]) };
+    if which == 0 {
+        Value::Str(zvariant::Str::from_static(s))
+    } else {
+        Value::ObjectPath(zvariant::ObjectPath::from_static_str_unchecked(s))
+    }
+}
+
+/// three string values (0..=2 symbolic ASCII bytes each)
+#[kani::proof]
+#[kani::unwind(10)]
+#[kani::stub(alloc::fmt::format, no_format)]
+fn c08_laws_s() {
+    let a = sym_str_value(0);
+    let b = sym_str_value(0);
+    let c = sym_str_value(0);
+    kani::cover!(a == b, "equal pair");
+    laws(&a, &b, &c);
+    core::mem::forget((a, b, c));
+}
+
+/// string vs object path with the same text are different values, consistently
+#[kani::proof]
+#[kani::unwind(10)]
+#[kani::stub(alloc::fmt::format, no_format)]
+fn c08_laws_s_o() {
+    let a = sym_str_value(0);
+    let b = sym_str_value(1);
+    let c = sym_str_value(0);
+    assert!(a != b, "a string equals an object path");
+    laws(&a, &b, &c);
+    laws(&b, &a, &c);
+    core::mem::forget((a, b, c));
+}
+
+/// one level of nesting: Value(Value::U32)
+#[kani::proof]
+#[kani::unwind(10)]
+#[kani::stub(alloc::fmt::format, no_format)]
+fn c08_laws_nested_u() {
+    let a = Value::Value(Box::new(Value::U32(kani::any())));
+    let b = Value::Value(Box::new(Value::U32(kani::any())));
+    let c = Value::Value(Box::new(Value::U32(kani::any())));
+    kani::cover!(a == b, "equal pair");
+    laws(&a, &b, &c);
+    assert!(a.value_signature() == &zvariant::Signature::Variant, "nested value does not report the variant signature");
+    core::mem::forget((a, b, c));
 }
